@@ -11,7 +11,8 @@
  *               the synchronous cipher / hash / AEAD burst API) on every manager (sse/avx2/avx512 x
  *               flags 0 / SHANI_OFF|GFNI_OFF); prints one result record per (case, manager, api[, burst
  *               layout]); see print format at run_b() and run_sync().  <selector>: one character per
- *               case, '0' = job + async burst, '1' = all three, '2' = synchronous burst only.
+ *               case, '0' = job + async burst, '1' = all three, '2' / '3' = synchronous burst only (on a
+ *               rotating pair of managers / on all).
  *   i <cases>   suite id of every job_view as computed by the library (IMB_MGR.set_suite_id); compared with
  *               the translated calc_cipher_tab_index / set_cipher_suite_id
  *   s           checked async burst with right / stale suite-id words (see run_s)
@@ -824,7 +825,7 @@ static volatile int sync_phase;   /* where a fault happened */
 
 /* phase 1: reference runs (job API).  Leaves arena == shadow == pristine + view. */
 static void
-sync_references(IMB_MGR *m, int kind, int args_ok, const struct view *v, int *have_ref, int *refst, int *referr, int *nref_ok)
+sync_references(IMB_MGR *m, int mi, int kind, int args_ok, const struct view *v, int *have_ref, int *refst, int *referr, int *nref_ok)
 {
         IMB_JOB *j, *r;
 
@@ -849,8 +850,40 @@ sync_references(IMB_MGR *m, int kind, int args_ok, const struct view *v, int *ha
                 reset_arena(0);
                 apply_memory_view(v);
         }
-        if (args_ok)
-                *nref_ok = (snbr_reference(m, &SN[0], kind, v) == 0 && snbr_reference(m, &SN[1], kind, v) == 0);
+        if (args_ok) {
+                /* neighbour references: one job-API run per (manager, algorithm, direction, key size), cached
+                 * (consecutive cases mostly name the same algorithm) */
+                static struct {
+                        int valid, kind;
+                        uint32_t cm, dir, ha;
+                        uint64_t key;
+                        uint8_t dst[2][sizeof(SN[0].ref_dst)], tag[2][sizeof(SN[0].ref_tag)];
+                } nc[NMGRS];
+                __typeof__(&nc[0]) c = &nc[mi];
+                const uint32_t cm = (uint32_t) v->f[16], dir = (uint32_t) v->f[17], ha = (uint32_t) v->f[18];
+                if (c->valid && c->kind == kind && c->cm == cm && c->ha == ha && (kind == SYNC_HASH || (c->dir == dir && c->key == v->f[2]))) {
+                        for (int k = 0; k < 2; k++) {
+                                memcpy(SN[k].ref_dst, c->dst[k], sizeof(SN[k].ref_dst));
+                                memcpy(SN[k].ref_tag, c->tag[k], sizeof(SN[k].ref_tag));
+                        }
+                        *nref_ok = 1;
+                } else {
+                        c->valid = 0;
+                        *nref_ok = (snbr_reference(m, &SN[0], kind, v) == 0 && snbr_reference(m, &SN[1], kind, v) == 0);
+                        if (*nref_ok) {
+                                c->valid = 1;
+                                c->kind = kind;
+                                c->cm = cm;
+                                c->dir = dir;
+                                c->ha = ha;
+                                c->key = v->f[2];
+                                for (int k = 0; k < 2; k++) {
+                                        memcpy(c->dst[k], SN[k].ref_dst, sizeof(SN[k].ref_dst));
+                                        memcpy(c->tag[k], SN[k].ref_tag, sizeof(SN[k].ref_tag));
+                                }
+                        }
+                }
+        }
 }
 
 struct sync_obs {
@@ -951,7 +984,7 @@ run_sync(int mi, const struct view *v, long caseno, int *clean)
                         alarm(20);
                         if (li < 0) {
                                 sync_phase = 1;
-                                sync_references(m, kind, args_ok, v, &have_ref, &refst, &referr, &nref_ok);
+                                sync_references(m, mi, kind, args_ok, v, &have_ref, &refst, &referr, &nref_ok);
                         } else {
                                 sync_phase = 2;
                                 sync_one(m, kind, chk, pos, n, v, &o);
@@ -1018,7 +1051,8 @@ run_b(const char *path, const char *maskpath)
                 return 2;
         }
         /* optional per-case selector, one character per case line:
-         *   '0' job + async burst only   '1' job + async burst + sync   '2' sync only     (no file: all '1') */
+         *   '0' job + async burst only   '1' job + async burst + sync   '2' sync only, on managers k and k+3 (k = case number mod 3)
+         *   '3' sync only, every manager     (no file: all '1') */
         char *mask = NULL;
         size_t masklen = 0;
         if (maskpath) {
@@ -1091,8 +1125,12 @@ run_b(const char *path, const char *maskpath)
                                         continue;
                                 if (api < 2 && sel == '2')
                                         continue;
+                                if (api < 2 && sel == '3')
+                                        continue;
                                 if (api == 2) {
-                                        if (sel != '0' && skind != SYNC_NA)
+                                        /* '2': the validation code is one C source compiled per architecture; cases that
+                                         * go through the synchronous API only visit a rotating pair of managers */
+                                        if (sel != '0' && skind != SYNC_NA && (sel != '2' || mi % 3 == (int) (caseno % 3)))
                                                 run_sync(mi, &v, caseno, &clean);
                                         continue;
                                 }
